@@ -159,6 +159,8 @@ type Node struct {
 	Proxy    *Proxy     // in front of this node: peers dial Proxy.Addr()
 	Adv      string
 	Rec      *Recorder  // what the receiving actor /recv saw
+	Rec2     *Recorder  // what the second receiving actor /recv2 saw
+	Direct   bool       // no proxy: advertised address = bind address
 	Ev       *SysEvents
 	RecvRef  vivid.ActorRef
 	senders  map[uint32]vivid.ActorRef
@@ -220,23 +222,33 @@ func (h readFailed) HandleRemotingConnectionReadFailed(fatal bool, err error) er
 // proxy == nil creates one; otherwise the given proxy (already listening on the advertised address) is re-targeted
 // (peer restart: same advertised address, new process).
 func StartNode(name string, limit int, proxy *Proxy) (*Node, error) {
+	return startNode(name, limit, proxy, false)
+}
+
+// StartDirectNode: a system whose peers dial it directly (no proxy in between)
+func StartDirectNode(name string, limit int) (*Node, error) { return startNode(name, limit, nil, true) }
+
+func startNode(name string, limit int, proxy *Proxy, direct bool) (*Node, error) {
 	var lastErr error
 	for try := 0; try < 5; try++ {
 		bind, err := freePort()
 		if err != nil {
 			return nil, err
 		}
-		n := &Node{Name: name, Bind: bind, Rec: &Recorder{}, Replies: &Recorder{}, Ev: &SysEvents{}, senders: map[uint32]vivid.ActorRef{}, Limit: limit}
-		if proxy == nil {
+		n := &Node{Name: name, Bind: bind, Rec: &Recorder{}, Rec2: &Recorder{}, Direct: direct, Replies: &Recorder{}, Ev: &SysEvents{}, senders: map[uint32]vivid.ActorRef{}, Limit: limit}
+		if direct {
+			n.Adv = bind
+		} else if proxy == nil {
 			n.Proxy, err = NewProxy(bind)
 			if err != nil {
 				return nil, err
 			}
+			n.Adv = n.Proxy.Addr()
 		} else {
 			n.Proxy = proxy
 			proxy.SetTarget(bind)
+			n.Adv = n.Proxy.Addr()
 		}
-		n.Adv = n.Proxy.Addr()
 		ro := vivid.NewActorSystemRemotingOptions(vivid.WithActorSystemRemotingReconnectLimit(limit))
 		ro.ConnectionReadFailedHandler = readFailed{n.Ev}
 		n.Sys = bootstrap.NewActorSystem(
@@ -253,7 +265,7 @@ func StartNode(name string, limit int, proxy *Proxy) (*Node, error) {
 		if !waitListening(bind, 3*time.Second) {
 			lastErr = fmt.Errorf("%s: remoting listener on %s did not come up", name, bind)
 			n.Sys.Stop(5 * time.Second)
-			if proxy == nil {
+			if proxy == nil && !direct {
 				n.Proxy.Close()
 			}
 			continue
@@ -339,6 +351,21 @@ func (n *Node) spawn() error {
 			}
 		}
 	}), vivid.WithActorName("recv"))
+	if err != nil {
+		return err
+	}
+	_, err = n.Sys.ActorOf(vivid.ActorFN(func(ctx vivid.ActorContext) {
+		if m, ok := ctx.Message().(*XMsg); ok {
+			from := ""
+			if s := ctx.Sender(); s != nil {
+				from = s.GetAddress() + s.GetPath()
+			}
+			n.Rec2.add(Got{Kind: m.Kind, Sender: m.Sender, Seq: m.Seq, Len: len(m.Data), Sum: cksum(m.Data), From: from, At: time.Now()})
+			if m.Kind == KAsk {
+				ctx.Reply(&XMsg{Kind: KReply, Sender: m.Sender, Seq: m.Seq, Data: m.Data})
+			}
+		}
+	}), vivid.WithActorName("recv2"))
 	return err
 }
 
@@ -408,6 +435,14 @@ func (n *Node) Stop() {
 // RemoteRecv is the ref of peer's /recv actor as seen from another system.
 func RemoteRecv(peer *Node) vivid.ActorRef {
 	r, err := actor.NewRef(peer.Adv, "/recv")
+	if err != nil {
+		panic(err)
+	}
+	return r
+}
+
+func RemoteRecv2(peer *Node) vivid.ActorRef {
+	r, err := actor.NewRef(peer.Adv, "/recv2")
 	if err != nil {
 		panic(err)
 	}
